@@ -170,6 +170,8 @@ PROPS["C04"] = {
         {"name": "pair-w64-446", "world": "W64-446", "src": "props/C04_pair.c", "tiers": ("thorough",)},
         {"name": "pair-w64-446q", "world": "W64-446q", "src": "props/C04_pair.c", "tiers": ("thorough",)},
         {"name": "fam-w64-315", "world": "W64-315", "src": "props/C04_fam.c", "args": ["--only", "c04-"]},
+        {"name": "fam-alt-w64", "world": "W64", "src": "props/C04_fam.c", "args": ["--only", "tate-and-weil"]},
+        {"name": "fam-alt-w64-330", "world": "W64-330", "src": "props/C04_fam.c", "args": ["--only", "tate-and-weil"]},
         {"name": "fam-w64-330", "world": "W64-330", "src": "props/C04_fam.c", "tiers": ("thorough",), "args": ["--only", "c04-"]},
         {"name": "fam-w64-638", "world": "W64-638", "src": "props/C04_fam.c", "tiers": ("thorough",), "args": ["--only", "c04-"]},
         {"name": "fam-w64-575q", "world": "W64-575q", "src": "props/C04_fam.c", "tiers": ("thorough",), "args": ["--only", "c04-"]},
@@ -329,14 +331,19 @@ PROPS["C15"] = {
 }
 
 PROPS["C14"] = {
-    "level": "exploration",
-    "technique": "bounded-exhaustive enumeration over complete ranges of message/key/output lengths (every length 0..300/600, every key x message length pair in a grid, every plaintext length 0..80 and every byte of the last two ciphertext blocks x a xor alphabet) of the real md_*/bc_* code against OpenSSL EVP and own RFC 7693 / RFC 9380 / MGF1 / KDF2 references",
+    "level": "model_checking",
+    "technique": "bounded-exhaustive enumeration over complete ranges of message/key/output lengths (every message length 0..1100 (thorough 4200), every key x message length pair up to 140 x 140 (thorough 300 x 300), every KDF/MGF output length 0..270 (700), every XMD output length 0..700 (2100) and DST length 0..257, every plaintext length 0..80 and every byte of the last two ciphertext blocks x a xor alphabet), in a build of every selectable hash behind the MAC/KDF/MGF, of the real md_*/bc_* code against OpenSSL EVP and own RFC 7693 / RFC 9380 / MGF1 / KDF2 references",
     "level_text": "Every message length in a range that covers every residue modulo both block sizes several times (and the 55/56/63/64/111/112/127/128 padding boundaries) with four byte patterns for SHA-224/256/384/512 and BLAKE2s-160/256; HMAC on a grid of 12 key lengths x every message length 0..150 (thorough: every pair up to 300); MGF1/KDF2 for every output length 0..130 and larger boundary sizes; expand_message_xmd for four hashes over output/message/DST length alphabets incl. the 255-block maximum and the out-of-range refusals; AES-CBC for the three key sizes (and invalid ones) x every plaintext length 0..80, decryption of every produced ciphertext, ciphertext mutation operators deciding with the reference whether the PKCS#7 padding is still valid.",
     "level_note": "Trusted: OpenSSL 3 EVP (second, independent implementation), ref_hash.h pieces (BLAKE2s self-checked against EVP at 256 bits at start-up). Not reached: messages >= 2^32 bytes (length-field high word).",
-    "rule": "cases are (primitive, lengths, pattern) by odometer; all non-trivial; distinct by 64-bit hash.",
-    "assumptions": ["OpenSSL implements FIPS 180-4, RFC 7693, RFC 2104, FIPS 197 / SP 800-38A correctly", "MD_MAP = SHA-256 for md_hmac/md_kdf/md_mgf (shipped default)"],
+    "rule": "cases are (primitive, lengths, pattern) by odometer; all non-trivial; distinct by 64-bit hash; states = grid points (primitive, length tuple, pattern / ciphertext operator) visited, transitions = library calls compared with the reference.",
+    "assumptions": ["OpenSSL implements FIPS 180-4, RFC 7693, FIPS 197 / SP 800-38A correctly", "HMAC, KDF2 and MGF1 are written out in the harness over the configured hash (MD_MAP; checked against OpenSSL's HMAC in the SHA-256 build)"],
     "jobs": [
         {"name": "hash-w64", "world": "W64", "src": "props/C14_hash.c"},
+        {"name": "hash-w64-sh512", "world": "W64-md-sh512", "src": "props/C14_hash.c", "args": ["--only", "mac"]},
+        {"name": "hash-w64-sh224", "world": "W64-md-sh224", "src": "props/C14_hash.c", "args": ["--only", "mac"], "tiers": ("thorough",)},
+        {"name": "hash-w64-sh384", "world": "W64-md-sh384", "src": "props/C14_hash.c", "args": ["--only", "mac"], "tiers": ("thorough",)},
+        {"name": "hash-w64-b2s160", "world": "W64-md-b2s160", "src": "props/C14_hash.c", "args": ["--only", "mac"], "tiers": ("thorough",)},
+        {"name": "hash-w64-b2s256", "world": "W64-md-b2s256", "src": "props/C14_hash.c", "args": ["--only", "mac"], "tiers": ("thorough",)},
     ],
 }
 
